@@ -4,6 +4,7 @@
 
 #[path = "../common.rs"]
 mod common;
+mod comm;
 mod allocwatch;
 mod ilog;
 mod inspect;
